@@ -711,7 +711,7 @@ class World:
         return cls
 
     # -- contract pieces ----------------------------------------------------------------------
-    def _error_kw(self, sid, form, for_inv):
+    def _error_kw(self, sid, form, for_inv, fparams=()):
         run = self.run
         if form in (None, "default"):
             return {}
@@ -739,6 +739,11 @@ class World:
                 def err(self):
                     return run.hit_err(sid + "/err", "inverr", self)
 
+            elif fparams:
+                # an error factory naming some of the call's values (e.g. OLD or result of a postcondition)
+                ns = {"_mk": lambda: run.hit_err(sid + "/err", "err")}
+                exec("def err(%s):\n    return _mk()\n" % ", ".join(fparams), ns)  # pylint: disable=exec-used
+                err = ns["err"]
             else:
 
                 def err():
@@ -816,11 +821,12 @@ class World:
             sid = "%s/post%d" % (owner, i)
             if c.get("omit"):
                 continue
+            cparams = tuple(x for x in pparams if x != "OLD") if c.get("no_old") else pparams
             dec = icontract.ensure(
-                self._fn("c_" + _san(sid), pparams, c.get("style", "sync"), sid, "post", old_names),
+                self._fn("c_" + _san(sid), cparams, c.get("style", "sync"), sid, "post", old_names),
                 description="[[%s]]" % sid,
                 **self._enabled_kw(c),
-                **self._error_kw(sid, c.get("error"), False)
+                **self._error_kw(sid, c.get("error"), False, tuple(x for x in (c.get("err_params") or ()) if x in pparams))
             )
             fn = dec(fn)
             self.contracts[sid] = dec._contract
